@@ -17,6 +17,14 @@ def isPanic {α : Type} (r : Except String α) (msg : String) : Bool :=
   | .error e => e == msg
   | .ok _ => false
 
+/-- the bytes returned by the last op when it was a `read` -/
+def lastRead (r : Except String (Sys × List Res)) : Option (List UInt8) :=
+  match r with
+  | .ok (_, rs) => match rs.getLast? with
+    | some (.read b) => some b
+    | _ => none
+  | .error _ => none
+
 /-- the segments returned by the last op when it was an `emit` -/
 def lastEmit (r : Except String (Sys × List Res)) : Option (List Segment) :=
   match r with
@@ -32,19 +40,12 @@ theorem c17_regression_window_shrink :
       [.write .A [1, 2, 3], .emit .A, .inject .A (forge .A 16 5001 1002 2 []), .write .A [4, 5], .emit .A]))
       = some [] := by decide
 
-/-- F-C17-2: a segment accepted only because its FIN lies in the window (`seq = RCV.NXT-2`,
-    one byte, FIN): `text_len - already_received = 1 - 2` -/
-theorem c17_total_counterexample_fin_in_window :
-    isPanic (Sys.run {} (handshakeOps ++ [.inject .A (forge .A 17 4999 1001 65535 [7])]))
-      "panic:sub-overflow:process_segment.unreceived" = true := by decide
-
-/-- the bytes returned by the last op when it was a `read` -/
-def lastRead (r : Except String (Sys × List Res)) : Option (List UInt8) :=
-  match r with
-  | .ok (_, rs) => match rs.getLast? with
-    | some (.read b) => some b
-    | _ => none
-  | .error _ => none
+/-- F-C17-2 (fixed): a segment accepted only because its FIN lies in the window
+    (`seq = RCV.NXT-2`, one byte, FIN) used to compute `text_len - already_received = 1 - 2`
+    and panic; now it contributes no text -/
+theorem c17_regression_fin_in_window :
+    lastRead (Sys.run {} (handshakeOps ++ [.inject .A (forge .A 17 4999 1001 65535 [7]), .read .A]))
+      = some [] := by decide
 
 /-- F-C17-3 (fixed): a SYN-ACK with text in SYN-SENT: the text starts at `SEG.SEQ + 1`; the code
     used to skip two bytes (or panic on a single byte), now every byte reaches the application -/
